@@ -133,6 +133,139 @@ fn part_b(dir: &std::path::Path, lists: &[Vec<String>], item: usize) -> String {
     }
 }
 
+// ---- part C: the account record changes on the server while one machine keeps running
+
+#[derive(Clone, Copy, Debug, PartialEq, Eq)]
+enum Rec {
+    Member,
+    InvalidMember,
+    NonMember,
+    Deleted,
+}
+
+#[derive(Clone, Copy, Debug, PartialEq, Eq)]
+enum SOp {
+    /// the server-side record becomes ...
+    Srv(Rec),
+    /// the host asks whether the user may log in: server reachable / unreachable; `fresh` =
+    /// the cache has run out (or the daemon was told to invalidate it) before the question
+    Ask { reachable: bool, fresh: bool },
+}
+
+fn sop_str(o: &SOp) -> String {
+    match o {
+        SOp::Srv(r) => format!("server:{r:?}"),
+        SOp::Ask { reachable, fresh } => format!("ask:{}:{}", if *reachable { "reachable" } else { "unreachable" }, if *fresh { "cache-run-out" } else { "cache-as-is" }),
+    }
+}
+
+fn sop_alphabet() -> Vec<SOp> {
+    let mut v: Vec<SOp> = [Rec::Member, Rec::InvalidMember, Rec::NonMember, Rec::Deleted].into_iter().map(SOp::Srv).collect();
+    for reachable in [true, false] {
+        for fresh in [false, true] {
+            v.push(SOp::Ask { reachable, fresh });
+        }
+    }
+    v
+}
+
+fn rec_token(r: Rec) -> Option<UnixUserToken> {
+    match r {
+        Rec::Member => Some(user_token(vec![group(0, "g0")], true)),
+        Rec::InvalidMember => Some(user_token(vec![group(0, "g0")], false)),
+        Rec::NonMember => Some(user_token(vec![group(3, "other")], true)),
+        Rec::Deleted => None,
+    }
+}
+
+struct SeqLab {
+    rt: tokio::runtime::Runtime,
+    peer: Peer,
+    m: edge::Machine,
+}
+
+thread_local! {
+    static SEQLAB: std::cell::RefCell<Option<SeqLab>> = const { std::cell::RefCell::new(None) };
+}
+
+/// one sequence on this worker's machine (cache emptied first); returns "labels|violations"
+fn part_c(dir: &std::path::Path, seq: &[SOp]) -> String {
+    SEQLAB.with(|l| {
+        let mut l = l.borrow_mut();
+        if l.is_none() {
+            let rt = rt();
+            let made = (|| {
+                let peer = Peer::start("irrelevant", rec_token(Rec::Member))?;
+                let db = dir.join(format!("c45-seq-{}.sqlite", std::process::id())).to_string_lossy().to_string();
+                let m = rt.block_on(edge::machine(&db, &peer.addr, &["g0".to_string()]))?;
+                Ok::<_, String>((peer, m))
+            })();
+            match made {
+                Ok((peer, m)) => *l = Some(SeqLab { rt, peer, m }),
+                Err(e) => return format!("E{e}"),
+            }
+        }
+        let Some(SeqLab { rt, peer, m }) = l.as_mut() else { return "Elab".to_string() };
+        peer.with(|s| {
+            s.up = true;
+            s.token = rec_token(Rec::Member);
+            s.log.clear();
+        });
+        let r: Result<String, String> = rt.block_on(async {
+            m.resolver.clear_cache().await.map_err(|_| "clear_cache".to_string())?;
+            let info = PamServiceInfo { service: "sshd".to_string(), tty: None, rhost: None };
+            let mut server = Rec::Member;
+            // the last record of the user this machine has seen the server give (or deny)
+            let mut observed: Option<Rec> = None;
+            let mut labels = String::new();
+            let mut viol = Vec::new();
+            for (step, op) in seq.iter().enumerate() {
+                match op {
+                    SOp::Srv(r) => {
+                        server = *r;
+                        peer.with(|s| s.token = rec_token(*r));
+                        labels.push('s');
+                    }
+                    SOp::Ask { reachable, fresh } => {
+                        if *fresh {
+                            m.resolver.invalidate().await.map_err(|_| "invalidate".to_string())?;
+                        }
+                        if *reachable {
+                            peer.with(|s| s.up = true);
+                            m.resolver.mark_next_check_now(std::time::SystemTime::now()).await;
+                            let _ = m.resolver.test_connection().await;
+                        } else {
+                            peer.with(|s| s.up = false);
+                            m.resolver.mark_offline().await;
+                        }
+                        let n = peer.log_len();
+                        let r = m.resolver.pam_account_allowed(USER, &info).await;
+                        if peer.log_since(n).iter().any(|l| l.contains("/_unix/_token") && !l.starts_with("DROPPED")) {
+                            observed = Some(server);
+                        }
+                        match r {
+                            Ok(Some(true)) => {
+                                labels.push('T');
+                                if observed != Some(Rec::Member) {
+                                    viol.push(format!("{step}:{}", match observed { None => "nothing".to_string(), Some(r) => format!("{r:?}") }));
+                                }
+                            }
+                            Ok(Some(false)) => labels.push('F'),
+                            Ok(None) => labels.push('N'),
+                            Err(()) => labels.push('X'),
+                        }
+                    }
+                }
+            }
+            Ok(format!("{labels}|{}", viol.join(",")))
+        });
+        match r {
+            Ok(s) => s,
+            Err(e) => format!("E{e}"),
+        }
+    })
+}
+
 pub fn run(args: &[String]) -> ! {
     let mut ctx = Ctx::new("C45", Level::Exploration, args);
     let quick = ctx.quick();
@@ -261,13 +394,69 @@ pub fn run(args: &[String]) -> ! {
             refused_though_entitled += 1;
         }
     }
+    // ---- part C
+    let alpha = sop_alphabet();
+    let depth_c = ctx.opt_u64("depth").unwrap_or(if quick { 4 } else { 5 }) as u32;
+    let replay_c: Option<Vec<SOp>> = ctx.replay.as_ref().and_then(|r| r["case"]["sequence"].as_array().cloned()).map(|a| a.iter().filter_map(|x| x.as_str()).filter_map(|x| alpha.iter().copied().find(|o| sop_str(o) == x)).collect());
+    let seqs: Vec<Vec<SOp>> = if let Some(s) = replay_c {
+        vec![s]
+    } else if ctx.replay.is_some() || only_b.is_some() {
+        vec![]
+    } else {
+        // sequences that end with a question (anything else adds nothing to judge)
+        (0..alpha.len().pow(depth_c))
+            .map(|mut k| {
+                let mut v = Vec::new();
+                for _ in 0..depth_c {
+                    v.push(alpha[k % alpha.len()]);
+                    k /= alpha.len();
+                }
+                v
+            })
+            .filter(|v| matches!(v[v.len() - 1], SOp::Ask { .. }))
+            .collect()
+    };
+    let res_c = match fork_map(workers, seqs.len(), |i| part_c(&dir, &seqs[i])) {
+        Ok(r) => r,
+        Err(e) => kv_engine::ctx::machinery_exit(&format!("C45 part C: {e}")),
+    };
+    let mut steps_c = 0u64;
+    let mut admitted_c = 0u64;
+    let mut answers: std::collections::BTreeMap<char, u64> = Default::default();
+    for (i, r) in res_c.iter().enumerate() {
+        let Some((labels, viol)) = r.split_once('|').filter(|_| !r.starts_with('E')) else {
+            ctx.machinery_error(format!("sequence {:?}: {r}", seqs[i].iter().map(sop_str).collect::<Vec<_>>()));
+            continue;
+        };
+        for c in labels.chars() {
+            steps_c += 1;
+            *answers.entry(c).or_default() += 1;
+            if c == 'T' {
+                admitted_c += 1;
+            }
+            if c == 'X' {
+                ctx.machinery_error(format!("sequence {:?}: a question failed", seqs[i].iter().map(sop_str).collect::<Vec<_>>()));
+            }
+        }
+        for v in viol.split(',').filter(|v| !v.is_empty()) {
+            let (step, seen) = v.split_once(':').unwrap_or(("0", "?"));
+            let step: usize = step.parse().unwrap_or(0);
+            bad += 1;
+            let trace: Vec<String> = seqs[i][..=step.min(seqs[i].len() - 1)].iter().map(sop_str).collect();
+            ctx.violation(&format!("admitted_after_the_server_said:{seen}"), &format!("{trace:?}: admitted although the last thing this machine saw of the user's record was: {seen}"), json!({"part": "sequence", "sequence": trace}));
+        }
+    }
+    if ctx.replay.is_none() && only_b.is_none() && admitted_c == 0 {
+        ctx.machinery_error("vacuous: no admission in the sequence part".into());
+    }
+    ctx.set("sequence_part", json!({"depth": depth_c, "sequences": seqs.len(), "steps": steps_c, "admitted": admitted_c, "answers": answers.iter().map(|(k, v)| (k.to_string(), *v)).collect::<std::collections::BTreeMap<_, _>>(), "alphabet": alpha.iter().map(sop_str).collect::<Vec<_>>()}));
     let _ = std::fs::remove_dir_all(&dir);
 
     if ctx.replay.is_none() && only_b.is_none() && (admitted == 0 || admitted_b == 0 || by_mode[0] == 0 || by_mode[1] == 0 || by_mode[2] == 0) {
         ctx.machinery_error("vacuous: no case was admitted on one of the paths".into());
     }
-    ctx.set("evaluations", evals + evals_b);
-    ctx.set("distinct_nontrivial", admitted + admitted_b);
+    ctx.set("evaluations", evals + evals_b + steps_c);
+    ctx.set("distinct_nontrivial", admitted + admitted_b + admitted_c);
     ctx.set("provider_cases", evals);
     ctx.set("resolver_cases", evals_b);
     ctx.set("admitted", admitted + admitted_b);
@@ -275,7 +464,7 @@ pub fn run(args: &[String]) -> ! {
     ctx.set("entitled_but_refused", refused_though_entitled);
     ctx.set("mismatches", bad);
     ctx.set("exhaustive", true);
-    ctx.set("rule", format!("allowed-login lists = {} of the subsets of {} spellings ({}) x user tokens = every subset of groups {{g0, g1, other}} x valid/invalid, through the real KanidmProvider::unix_user_authorise; and 5 lists x the same tokens (quick: those without the third group) x 4 resolver paths ({}) through the real Resolver::pam_account_allowed over a real TCP connection to a scripted identity server. Non-trivial = cases admitted", if quick { "those with at most two members and the full one" } else { "all" }, sp.len(), sp.iter().map(|s| s.1).collect::<Vec<_>>().join("; "), MODES.join("; ")));
+    ctx.set("rule", format!("allowed-login lists = {} of the subsets of {} spellings ({}) x user tokens = every subset of groups {{g0, g1, other}} x valid/invalid, through the real KanidmProvider::unix_user_authorise; and 5 lists x the same tokens (quick: those without the third group) x 4 resolver paths ({}) through the real Resolver::pam_account_allowed over a real TCP connection to a scripted identity server; and every sequence of {depth_c} events (the server-side record becomes member / invalid member / non-member / deleted; the host asks with the server reachable or not, with the cache as it is or run out) that ends with a question, on one running machine: an admission must rest on the last record the machine saw. Non-trivial = cases admitted", if quick { "those with at most two members and the full one" } else { "all" }, sp.len(), sp.iter().map(|s| s.1).collect::<Vec<_>>().join("; "), MODES.join("; ")));
     ctx.assume("one-directional, as the statement is: an admission must be justified by validity and by a group of the user's record that is in the list by exact name or by hyphenated uuid; refusals of entitled users are counted in the evidence, not judged");
     ctx.assume("the user's current account record is the one the resolver holds: fetched from the identity server when it is reachable and the cache is out of date, the cached one otherwise; local (/etc/passwd) accounts are not directory users and are not driven");
     ctx.finish();
